@@ -92,6 +92,10 @@ func VerifRun_C17f() {
 	_ = l.Initialized(ctx, InitializedParams{})
 	// the first configuration notification after start-up only records settings
 	_ = l.ChangeConfiguration(ctx, c17fParams(c17fRules[r0], c17fRules[e0]))
+	// the user may have a document open when the settings change (document events consult the ignore rules too)
+	if verifParam("BATCH") == 0 && verifBool("documentOpen") {
+		_ = l.TextDocumentDidOpen(ctx, lsp.DidOpenTextDocumentParams{TextDocument: lsp.TextDocumentItem{URI: lsp.DocumentURI("file://" + root + "/a.lua"), Text: "local u = 1\n"}})
+	}
 	last, lastErr := r0, e0
 	for k := 0; k < verifParam("CHANGES"); k++ {
 		last = verifConcretize(verifRange("ignore", 0, nr))
